@@ -24,7 +24,7 @@ import (
 )
 
 // xfC13PairCases writes the pair cases of one API variant under one option set (k rotates lengths, offsets and codes).
-func xfC13PairCases(rng *rand.Rand, cfg xfCfg, v xfAPIVariant, k int, thorough bool) (out []xfCase) {
+func xfC13PairCases(rng *rand.Rand, codes []uint32, cfg xfCfg, v xfAPIVariant, k int, thorough bool) (out []xfCase) {
 	mp := cfg.MP
 	nch := 3 + k%3
 	if mp > 1000 {
@@ -65,7 +65,7 @@ func xfC13PairCases(rng *rand.Rand, cfg xfCfg, v xfAPIVariant, k int, thorough b
 	if isReadAt {
 		kinds = []string{"status", "short", "end"}
 	}
-	nc := len(xfFailCodes)
+	nc := len(codes)
 	for pi, p := range pairs {
 		if seen[p] || p.i >= p.j || p.j >= len(plan) {
 			continue
@@ -74,10 +74,10 @@ func xfC13PairCases(rng *rand.Rand, cfg xfCfg, v xfAPIVariant, k int, thorough b
 		oi, oj := plan[p.i].Off, plan[p.j].Off
 		for ki, kind := range kinds {
 			cs := base
-			a := xfFailCodes[(k+pi+ki)%nc]
-			b := xfFailCodes[(k*7+3+pi*5+ki)%nc]
+			a := codes[(k+pi+ki)%nc]
+			b := codes[(k*7+3+pi*5+ki)%nc]
 			if a == b {
-				b = xfFailCodes[(k*7+4+pi*5+ki)%nc]
+				b = codes[(k*7+4+pi*5+ki)%nc]
 			}
 			cs.Fail = map[string]xfFail{fmt.Sprint(oj): {Code: b, Msg: fmt.Sprintf("fail@%d", oj)}}
 			switch kind {
